@@ -29,10 +29,32 @@ type execModel struct {
 
 func (m *execModel) flagNorm() string { return "p:n." + m.flagField }
 
+var knownEnum = map[string]struct{ typ, val string }{
+	"decoratorReady":   {"decoratorState", "0"},
+	"decoratorOnStack": {"decoratorState", "1"},
+	"decoratorCalled":  {"decoratorState", "2"},
+}
+
 func digConst(c *an.Ctx, name string) (string, bool) {
 	o := c.P.Dig.Pkg.Scope().Lookup(name)
 	k, ok := o.(*types.Const)
 	if !ok {
+		// a renamed constant of an enumeration the rules know: the decorator states are told apart by type and
+		// value (frozen from the tree the rules were written against) when exactly one constant of that type has it
+		if want, known := knownEnum[name]; known {
+			var hit *types.Const
+			n := 0
+			sc := c.P.Dig.Pkg.Scope()
+			for _, nm := range sc.Names() {
+				if kk, isK := sc.Lookup(nm).(*types.Const); isK && an.IsDigNamed(kk.Type(), want.typ) && kk.Val().String() == want.val {
+					hit = kk
+					n++
+				}
+			}
+			if n == 1 {
+				return hit.Val().String(), true
+			}
+		}
 		return "", false
 	}
 	if k.Val().Kind() == constant.Int {
